@@ -3,7 +3,7 @@ import math
 from props.common import BASE_TRUSTED
 
 PROP = 'C03'
-KERNELS = ['rg_z_offset', 'rg_origins', 'rg_generate', 'dist_line_x', 'dist_line_y', 'dist_random', 'dist_uniform',
+KERNELS = ['fld_max_field', 'fld_max_y_field', 'fld_max_x_field', 'rg_z_offset', 'rg_origins', 'rg_generate', 'dist_line_x', 'dist_line_y', 'dist_random', 'dist_uniform',
            'dist_hexapolar', 'dist_cross', 'dist_gq_radius', 'dist_gq', 'dist_ring', 'std_sag']
 THEOREMS = None     # filled below from coq/Props/C03.v once written
 COQ_TARGETS = ['Model/M_C03.vo', 'Lemmas/L_C03_examples.vo']
@@ -11,7 +11,7 @@ TRUSTED_BASE = BASE_TRUSTED + [
     'translator extension tools/py2coq_c03.py (1-D NumPy arrays as lists, np.linspace/meshgrid/mask/outer, int-keyed dict '
     'literals, an if/elif chain without else whose targets are read later raises) + coq/Num/OpsC03.v; validated by the kernel '
     'correspondence of every distribution and of the three RayGenerator methods',
-    'hand model coq/Model/M_C03.v (FieldGroup.get_vig_factor / max_field, wiring of the generator to Model/Paraxial.v EPL/EPD, '
+    'hand model coq/Model/M_C03.v (FieldGroup.get_vig_factor; max_field / max_y_field are regenerated kernels; wiring of the generator to Model/Paraxial.v EPL/EPD, '
     'create_distribution, pupil scaling of Optic.trace / trace_generic): tied by correspondence only',
     'the object surface is a plane or a conic (its sag is the regenerated StandardGeometry.sag)',
     'positions[1] = 0 (first surface at the origin) is a hypothesis of the infinite-object angle theorem; every lens built '
@@ -21,7 +21,8 @@ TRUSTED_BASE = BASE_TRUSTED + [
 RULE = ('kernel cases: seeded inputs cycling through the 24 cells (object finite/infinite x field type x telecentric x aperture '
         'type) x polarization, Hy in [-1,1], pupil points in the unit disk, vignetting in [0,0.5], EPL of both signs; every '
         'named distribution for counts 0..40 (rings 0..8). system: seeded lenses of 1-12 surfaces forced into each cell '
-        '(valid or not; six rejection rules), shuffled field lists with vignetting, curved object surfaces, object-space index != 1; '
+        '(valid or not; six rejection rules), three classes of field lists (0..+max on y; largest magnitude negative; x and y '
+        'extremes on different field points), off-axis Hx, fields with vx != vy, shuffled field lists with vignetting, curved object surfaces, object-space index != 1; '
         'the prescriptions of the three repaired findings replayed on every run; '
         'non-trivial = a launched ray with finite record in a distinct (lens, ray)')
 PARTIAL = [
@@ -61,6 +62,32 @@ def kernel_cases(ctx):
             continue
         cases = c03lib.rg_cases(g, mans[k], n if k != 'rg_z_offset' else n // 4)
         yield k, cases, {'tol': 1e-12, 'pyres': c03lib.rg_pyres(mans[k], cases)}
+    # FieldGroup.max_field / max_x_field / max_y_field on real Field lists: negative entries, mixed x/y points
+    if 'fld_max_field' in mans:
+        from optiland.fields import Field, FieldGroup
+        fl_cases, res_mf, res_my, res_mx = [], [], [], []
+        for i in range(ctx.n(120, 1200)):
+            m = g.r.choice([1, 1, 2, 3, 4, 6])
+            mode = i % 4
+            xs = [0.0] * m if mode < 2 else [g.r.choice([0.0, g.uni(-20, 20)]) for _ in range(m)]
+            ys = [g.uni(0, 20) for _ in range(m)] if mode == 0 else [g.r.choice([0.0, g.uni(-20, 20), -g.uni(0, 20)]) for _ in range(m)]
+            fg = FieldGroup()
+            for x, y in zip(xs, ys):
+                fg.add_field(Field('angle', x, y))
+            fl_cases.append((xs, ys))
+            for acc, nm in ((res_mf, 'max_field'), (res_my, 'max_y_field'), (res_mx, 'max_x_field')):
+                try:
+                    acc.append({'ok': [float(getattr(fg, nm)).hex()]})
+                except Exception as e:      # noqa
+                    acc.append({'err': type(e).__name__})
+        def fdict(xs, ys):
+            # every attribute a (possibly edited) property body may read
+            return {'self.x_fields': xs, 'self.y_fields': ys, 'self.max_x_field': max(xs), 'self.max_y_field': max(ys),
+                    'self.num_fields': len(xs)}
+        for kname, pr, opts in (('fld_max_field', res_mf, {'tol': 1e-15}), ('fld_max_y_field', res_my, {}),
+                                ('fld_max_x_field', res_mx, {})):
+            if kname in mans and all(i['path'] in fdict([0.0], [0.0]) for i in mans[kname]['inputs']):
+                yield kname, [_by_manifest(mans[kname], fdict(xs, ys)) for xs, ys in fl_cases], dict(opts, pyres=pr)
     counts = list(range(0, ctx.n(41, 81)))
     vv = lambda: g.r.choice([0.0, g.uni(0, 0.6)])
     for k in ('dist_line_x', 'dist_line_y'):
@@ -131,7 +158,8 @@ def _lenses(ctx, per_cell, rays_per, salt=0):
     rng = random.Random(ctx.seed * 31 + 3 + salt)
     out = []
     hist = {'lenses': 0, 'build_errors': {}, 'cells': {}, 'launched': 0, 'raised': {}, 'vignetted_fields': 0,
-            'curved_object': 0, 'object_index': 0, 'polarized': 0}
+            'curved_object': 0, 'object_index': 0, 'polarized': 0,
+            'field_class': {'positive': 0, 'negative-largest': 0, 'mixed-xy': 0}, 'fields_with_vx_ne_vy': 0, 'off_axis_Hx_rays': 0}
     for cell in ALL_CELLS:
         for j in range(per_cell):
             spec = c03lib.cell_spec(rng, cell)
@@ -146,6 +174,8 @@ def _lenses(ctx, per_cell, rays_per, salt=0):
             hist['lenses'] += 1
             hist['cells']['/'.join(str(c) for c in cell)] = hist['cells'].get('/'.join(str(c) for c in cell), 0) + 1
             hist['vignetted_fields'] += int(any(f[2] or f[3] for f in spec['fields']))
+            hist['field_class'][spec['field_class']] += 1
+            hist['fields_with_vx_ne_vy'] += int(any(f[2] != f[3] for f in spec['fields']))
             hist['curved_object'] += int(bool(spec.get('object_radius')) and not cell[0])
             hist['object_index'] += int(bool(spec.get('object_index')))
             hist['polarized'] += int(bool(spec.get('polarization')))
@@ -153,6 +183,7 @@ def _lenses(ctx, per_cell, rays_per, salt=0):
             rs = []
             for ri, (Hx, Hy, Px, Py) in enumerate(_rays(rng, rays_per)):
                 via = 'generate' if ri % 3 else 'generic'
+                hist['off_axis_Hx_rays'] += int(Hx != 0)
                 r = c03lib.impl_launch(o, Hx, Hy, Px, Py, w, via)
                 if r[0] == 'ok':
                     hist['launched'] += 1
@@ -177,7 +208,10 @@ def _cmp_launch(call, res, tol):
 def _generic_pupil(o, ray):
     """what trace_generic hands to generate_rays"""
     Hx, Hy, Px, Py, w = ray
-    vx, vy = o.fields.get_vig_factor(Hx, Hy)
+    try:
+        vx, vy = o.fields.get_vig_factor(Hx, Hy)
+    except NotImplementedError:
+        return ray
     return (Hx, Hy, Px * (1 - float(vx)), Py * (1 - float(vy)), w)
 
 
@@ -246,6 +280,10 @@ def system_checks(ctx):
     # (e) the three repaired defects must stay repaired
     yield _regression_check(ctx)
 
+    # (f) _get_ray_origins and max_field on general field lists (negative largest field, x/y extremes on different
+    #     points, off-axis Hx), where generate_rays itself refuses x fields
+    yield _origins_check(ctx)
+
 
 def _trace_check(ctx):
     import random, warnings
@@ -259,7 +297,8 @@ def _trace_check(ctx):
     cases = []
     valid = [c for c in ALL_CELLS if not c03lib.must_reject(*c)]
     for i in range(ctx.n(20, 160)):
-        spec = c03lib.cell_spec(rng, rng.choice(valid), nsurf=rng.choice([1, 2, 3, 4]))
+        spec = c03lib.cell_spec(rng, rng.choice(valid), nsurf=rng.choice([1, 2, 3, 4]),
+                                field_class=rng.choice(['positive', 'positive', 'negative-largest']))
         try:
             o = c03lib.build(spec)
             o.paraxial.EPL()
@@ -380,6 +419,90 @@ def dist_oracle(name, n, vx, vy, seed=None):
     return bad
 
 
+def _origin_cases(ctx, per_class, salt=0):
+    import random, warnings
+    import c03lib
+    warnings.simplefilter('ignore')
+    rng = random.Random(ctx.seed * 41 + 9 + salt)
+    hist = {'field_class': {'positive': 0, 'negative-largest': 0, 'mixed-xy': 0}, 'off_axis_Hx': 0, 'vx_ne_vy': 0,
+            'raised': {}, 'cells': {}}
+    out = []
+    cells = [c for c in ALL_CELLS if not c[2]]          # _get_ray_origins ignores the aperture / telecentric rules
+    for fc in ('positive', 'negative-largest', 'mixed-xy'):
+        for j in range(per_class):
+            cell = cells[(j * 5 + len(out) * 7 + (j // 2)) % len(cells)]
+            spec = c03lib.cell_spec(rng, cell, nsurf=rng.choice([1, 2, 3, 5]), field_class=fc)
+            try:
+                o = c03lib.build(spec)
+                o.paraxial.EPL()
+            except Exception:    # noqa
+                continue
+            hist['field_class'][fc] += 1
+            hist['cells']['/'.join(str(c) for c in cell)] = hist['cells'].get('/'.join(str(c) for c in cell), 0) + 1
+            rs = []
+            for k in range(4):
+                Hx = rng.choice([0.0, rng.uniform(-1, 1), rng.uniform(-1, 1)])
+                Hy = rng.choice([1.0, -1.0, rng.uniform(-1, 1)])
+                rr, th = rng.choice([0.0, 1.0, rng.uniform(0, 1)]), rng.uniform(0, 6.283)
+                vx, vy = 1 - rng.choice([0.0, rng.uniform(0, 0.5)]), 1 - rng.choice([0.0, rng.uniform(0, 0.5)])
+                args = (Hx, Hy, rr * math.cos(th), rr * math.sin(th), vx, vy)
+                hist['off_axis_Hx'] += int(Hx != 0)
+                hist['vx_ne_vy'] += int(vx != vy)
+                r = c03lib.impl_origins(o, *args)
+                if r[0] != 'ok':
+                    hist['raised'][r[1]] = hist['raised'].get(r[1], 0) + 1
+                rs.append((args, r))
+            out.append((spec, o, rs))
+    return out, hist
+
+
+def _origins_check(ctx):
+    import vlib, c03lib
+    fh = vlib.fhex
+    cases, hist = _origin_cases(ctx, ctx.n(10, 80))
+    res = {'name': 'origins-and-max-field-on-general-field-lists', 'n': 0, 'nontrivial': 0, 'histogram': hist, 'samples': [],
+           'disagreements': []}
+    defs, lines, keys = [], [], []
+    for li, (spec, o, rs) in enumerate(cases):
+        defs.append(c03lib.coq_optic(f'o{li}', o, spec))
+        try:
+            mfv = float(o.fields.max_field)
+            lines.append(f'close {fh(1e-13)} (max_field (o_fields o{li})) {fh(mfv)}')
+            keys.append((li, 'max_field'))
+        except Exception:     # noqa
+            pass
+        for ri, (args, r) in enumerate(rs):
+            call = f'origins o{li} ' + ' '.join(fh(v) for v in args)
+            if r[0] != 'ok':
+                lines.append(f'match {call} with None => true | Some _ => false end')
+            else:
+                lines.append(f'match {call} with None => false | Some (x_, y_, z_) => close {fh(1e-9)} x_ {fh(r[1][0])} && '
+                             f'close {fh(1e-9)} y_ {fh(r[1][1])} && close {fh(1e-9)} z_ {fh(r[1][2])} end')
+            keys.append((li, ri))
+    body = '\n'.join(defs) + '\nEval vm_compute in (report [\n' + ';\n'.join(lines) + '\n]).\n'
+    out = vlib.run_cases('C03origins', 'From OV Require Import OpsC03 Model.Paraxial Model.M_C03.', [body])
+    r0 = out[0]
+    if r0[0] == 'error':
+        res['error'] = r0[1]
+        return res
+    res['n'] = r0[0]
+    failed = {keys[i] for i in r0[2]}
+    if r0[1] > len(r0[2]):
+        res['disagreements'].append({'note': f'{r0[1] - len(r0[2])} further mismatches', 'violates_property': False})
+    for li, (spec, o, rs) in enumerate(cases):
+        for ri, (args, r) in enumerate(rs):
+            res['nontrivial'] += int(r[0] == 'ok')
+            bad = c03lib.check_origins(o, spec, args, r)
+            if (li, ri) in failed or bad or ((li, 'max_field') in failed and ri == 0):
+                res['disagreements'].append({'spec': spec, 'origins_args(Hx,Hy,Px,Py,vx,vy)': list(args), 'implementation': list(r),
+                                             'model_agrees': (li, ri) not in failed and (li, 'max_field') not in failed,
+                                             'oracle': bad[:3], 'violates_property': bool(bad)})
+    if cases:
+        spec, o, rs = cases[-1]
+        res['samples'].append({'fields(y,x,vx,vy)': spec['fields'], 'max_field': float(o.fields.max_field), 'origins': list(rs[0][1])})
+    return res
+
+
 def _count_check(ctx):
     from optiland.distribution import create_distribution
     g = ctx.gen
@@ -427,6 +550,14 @@ def search(ctx, broken, disagreements):
                 break
     tr = _trace_check(ctx)
     found.extend(d for d in tr.get('disagreements', []) if d.get('violates_property'))
+    ocases, _ = _origin_cases(ctx, ctx.n(15, 80), salt=77)
+    for spec, o, rs in ocases:
+        for args, r in rs:
+            bad = c03lib.check_origins(o, spec, args, r)
+            if bad:
+                found.append({'spec': spec, 'origins_args(Hx,Hy,Px,Py,vx,vy)': list(args), 'implementation': list(r),
+                              'oracle': bad[:3], 'violates_property': True})
+                break
     g = ctx.gen
     for name in DIST_NAMES + ['random', 'gq', 'gqsym']:
         for n in (range(1, 10) if name == 'hexapolar' else range(-1, 9) if name.startswith('gq') else range(1, 40)):
